@@ -65,7 +65,8 @@ def st_path(draw):
             "grammar", "grammar", "decoy-abs", "decoy-rel", "decoy-rel-noisy",
             "abs-inside", "root-relative-up", "decoy-rel-backslash",
             "decoy-abs-backslash", "decoy-rel-mixed-sep",
-            "decoy-abs-doubleslash", "decoy-abs-tripleslash"
+            "decoy-abs-doubleslash", "decoy-abs-tripleslash",
+            "decoy-rel-deep", "decoy-rel-deep"
         ]))
     if kind == "grammar":
         comps = draw(st.lists(st_component(), min_size=1, max_size=8))
@@ -119,6 +120,12 @@ def concrete_path(spec, base_dir: str, root: str, decoy: str, tail: str,
     if kind == "root-relative-up":
         return "../" * spec["ups"] + os.path.basename(root) + "/" + \
             base_dir + "/" + tail
+    if kind == "decoy-rel-deep":
+        # climbs above the root and then descends at least as far again:
+        # fewer '..' than ordinary components, but the lowest point reached
+        # is outside the root
+        return (base_dir + "/" + "../" * (depth_from_root + 1) +
+                "decoy/deep/er/" + tail)
     if kind == "decoy-abs-doubleslash":
         # POSIX: exactly two leading slashes are an own (implementation
         # defined) root; the kernel treats it like "/"
